@@ -4,6 +4,7 @@ package c16
 import (
 	"fmt"
 	"sort"
+	"sync"
 	"testing"
 
 	"github.com/wollac/iota-crypto-demo/pkg/bech32"
@@ -272,6 +273,8 @@ func TestSyndromeReplay(t *testing.T) {
 
 // ---------- (2) end to end through Decode ----------
 
+var premiseOnce sync.Once
+
 type e2eCase struct {
 	S    h.S   `json:"s"`    // valid Bech32 string
 	Pos  []int `json:"pos"`  // positions to replace (distinct)
@@ -333,6 +336,14 @@ func checkE2E(c e2eCase) (h.Info, error) {
 			}
 		}
 		m[p] = nc
+	}
+	// premise of the statement and of the syndrome argument: the unmodified valid string is accepted.
+	// If Decode rejects it, C16 cannot be decided by this check (that defect is C04/C05's to report):
+	// the run is marked inconclusive, it is neither a C16 violation nor a pass.
+	if _, _, err := bech32.Decode(s); err != nil {
+		premiseOnce.Do(func() {
+			fmt.Printf("VERIF-INFRA C16 premise broken: Decode rejects the valid Bech32 string %q (%v); C16 is undecidable on this tree, see C04/C05\n", s, err)
+		})
 	}
 	cls := fmt.Sprintf("weight%d", len(c.Pos))
 	if inHRP > 0 {
